@@ -379,6 +379,10 @@ func (runInfo *runInfoStruct) invokeMemberExpr(expr *ast.MemberExpr) {
 
 	if runInfo.rv.Kind() == reflect.Ptr {
 		runInfo.rv = runInfo.rv.Elem()
+		if runInfo.rv.Kind() == reflect.Interface && !runInfo.rv.IsNil() {
+			// a pointer to a variable that holds its value in an interface slot (p = &s with s read from a list)
+			runInfo.rv = runInfo.rv.Elem()
+		}
 	}
 
 	switch runInfo.rv.Kind() {
